@@ -122,6 +122,16 @@ def aes_lines(rnd, n):
     return L
 
 
+def aesfresh_lines(rnd, kmax=6):
+    """first AES use of a process with the k-th allocation refused (k = 0: none): the one-time choice between the hardware and
+    the software implementation must stay consistent with the keys already expanded"""
+    L = []
+    for k in range(0, kmax + 1):
+        for kl in (16, 32):
+            L.append("aesfresh %d %s %s %s" % (k, hx(rbytes(rnd, kl)), hx(rbytes(rnd, rnd.choice([16, 32]))), hx(rbytes(rnd, 16))))
+    return L
+
+
 CB = [1, 15, 16, 17, 31, 32, 33, 47, 48, 255, 256, 257]
 
 
